@@ -29,10 +29,11 @@ type Case struct {
 	Close []int  `json:"close,omitempty"`
 	Rep   int    `json:"rep,omitempty"`
 	// fam "rec": recursion form, depth d, configured limit L, observation mode
-	Form string `json:"form,omitempty"`
-	D    int    `json:"d,omitempty"`
-	L    int    `json:"l,omitempty"`
-	Mode string `json:"mode,omitempty"` // "raw" | "catch"
+	Form   string `json:"form,omitempty"`
+	D      int    `json:"d,omitempty"`
+	L      int    `json:"l,omitempty"`
+	Mode   string `json:"mode,omitempty"`   // "raw" | "catch"
+	Copies int    `json:"copies,omitempty"` // the recursion runs on the n-th Copy() made after SetStackDepthLimit
 	// fam "acc": accessor of Value / Object applied to a value of a kind
 	Acc  string `json:"acc,omitempty"`
 	Kind string `json:"kind,omitempty"`
@@ -114,6 +115,9 @@ func newVM() *otto.Otto {
 	vm.Set("C02_mapis", map[int]string{1: "a", 2: "b"})
 	vm.Set("C02_slice", []int{1, 2, 3})
 	vm.Set("C02_func", func(a int) int { return a + 1 })
+	vm.Set("C02_mapsp", map[string]*GoStruct{"k": {A: 1}})
+	vm.Set("C02_arr", [2]int{1, 2})
+	vm.Set("C02_nested", &GoStruct{C: []int{1, 2, 3}})
 	return vm
 }
 
@@ -363,7 +367,7 @@ func Render(c *Case) string {
 		s := bytesOf(c)
 		return fmt.Sprintf("[%s] %q", c.API, trunc(s, 200))
 	case "rec":
-		return fmt.Sprintf("[rec %s] form=%s d=%d L=%d :: %s", c.Mode, c.Form, c.D, c.L, trunc(recProgram(c.Form, c.D), 300))
+		return fmt.Sprintf("[rec %s] form=%s d=%d L=%d copies=%d :: %s", c.Mode, c.Form, c.D, c.L, c.Copies, trunc(recProgram(c.Form, c.D), 300))
 	case "acc":
 		k, _ := expr(c.Kind)
 		return fmt.Sprintf("[acc] %s on %s", c.Acc, k)
@@ -384,6 +388,8 @@ func Render(c *Case) string {
 	case "expo":
 		x, _ := nestExpr(c.Shape, c.X, c.Y)
 		return fmt.Sprintf("[expo] %s on %s", c.Acc, x)
+	case "bw":
+		return "[bw] " + bwText(c)
 	case "defp":
 		s, d, _, _ := defScript(c)
 		return fmt.Sprintf("[defp] %s; %s; <probes>", s, d)
@@ -604,6 +610,8 @@ func exec1(c *Case, onVM func(*otto.Otto)) Obs {
 		vm.SetStackDepthLimit(c.L)
 		obs = applyAcc(vm, c.Acc, v)
 		vm.SetStackDepthLimit(0)
+	case "bw":
+		obs = execBw(vm, c)
 	case "expo":
 		obs = execExpo(vm, c)
 	case "defp":
